@@ -58,6 +58,9 @@ pub enum Naming {
     /// textual names of the fresh form `$f<k>` where k is exactly the library's next unissued fresh
     /// index at the moment the name is first used
     FreshNext,
+    /// names that went through the term parser: even n is written `$<k>`, odd n `$0<k>` (k = n/2 + 1) - two different
+    /// names to the parser's reader, a numeral and a zero-padded text
+    ParsedPadded,
 }
 
 pub fn slot_of(n: Name, nm: Naming) -> Slot {
@@ -79,6 +82,20 @@ pub fn slot_of(n: Name, nm: Naming) -> Slot {
             Slot::named(&format!("n{n}x"))
         }
         Naming::FreshLike => Slot::named(&format!("f{}", 100000 + n as u32)),
+        Naming::ParsedPadded => {
+            thread_local! { static PMEMO: std::cell::RefCell<std::collections::HashMap<Name, Slot>> = Default::default(); }
+            PMEMO.with(|m| {
+                if let Some(s) = m.borrow().get(&n) {
+                    return *s;
+                }
+                let k = n as u32 / 2 + 1;
+                let txt = if n % 2 == 0 { format!("(var ${k})") } else { format!("(var $0{k})") };
+                let e = RecExpr::<Sym>::parse(&txt).expect("parsable slot spelling");
+                let Sym::Var(s) = e.node else { panic!("not a var") };
+                m.borrow_mut().insert(n, s);
+                s
+            })
+        }
         Naming::FreshNext => {
             thread_local! { static MEMO: std::cell::RefCell<std::collections::HashMap<Name, Slot>> = Default::default(); }
             MEMO.with(|m| {
